@@ -23,6 +23,8 @@ structure RcNode (m : Mem) (C : List Nat) (i : Nat) (nd : NodeS) : Prop where
   dead : nd.recycled = 1 → nd.refer ≤ 0 ∧ i ∉ C ∧ m.ch i = 0 ∧ nd.block = none ∧ nd.origin = none
   child : ∀ o, nd.origin = some o → nd.recycled = 0 →
     o ≠ i ∧ nd.unmanaged = true ∧ nd.refer ≤ 1 ∧ ∃ on : NodeS, m.nodes[o]? = some on ∧ on.origin = none ∧ on.block = nd.block
+  /-- an unmanaged struct that is not a child wraps caller memory (no WriteDirect split in the history) -/
+  caller : nd.unmanaged = true → nd.origin = none → ∀ k, nd.block = some k → ∃ bl : Block, m.blocks[k]? = some bl ∧ bl.kind = .caller
 
 structure Rc (m : Mem) (C : List Nat) : Prop where
   nodup : C.Nodup
@@ -39,7 +41,7 @@ theorem inC_le_of_subset {C C' : List Nat} (h : ∀ x ∈ C', x ∈ C) (i : Nat)
 theorem Rc.mono {m : Mem} {C C' : List Nat} (h : Rc m C) (hn : C'.Nodup) (hs : ∀ x ∈ C', x ∈ C) : Rc m C' := by
   refine ⟨hn, fun i hi => h.inb i (hs i hi), fun i nd hnd => ?_⟩
   have r := h.node i nd hnd
-  refine ⟨r.once, fun h0 => ?_, fun h1 => ?_, r.child⟩
+  refine ⟨r.once, fun h0 => ?_, fun h1 => ?_, r.child, r.caller⟩
   · have := r.live h0
     have := inC_le_of_subset hs i
     omega
@@ -131,29 +133,34 @@ theorem Rc.setNode_same {m : Mem} {C : List Nat} {i : Nat} {nd nd' : NodeS} (h :
   refine ⟨h.nodup, fun j hj => by simp only [Mem.setNode, List.length_set]; exact h.inb j hj, fun j x hx => ?_⟩
   rcases getElem?_setNode hx with ⟨rfl, rfl, _⟩ | ⟨hji, hx'⟩
   · have r := h.node j nd hn
-    refine ⟨by rw [h1]; exact r.once, fun h0 => ?_, fun hd => ?_, fun o ho h0 => ?_⟩
+    refine ⟨by rw [h1]; exact r.once, fun h0 => ?_, fun hd => ?_, fun o ho h0 => ?_,
+      fun hu ho k hk => r.caller (by rw [← h5]; exact hu) (by rw [← h2]; exact ho) k (by rw [← h4]; exact hk)⟩
     · rw [hch, h3]; exact r.live (by rw [← h1]; exact h0)
     · rw [hch, h3, h4, h2]; exact r.dead (by rw [← h1]; exact hd)
     · obtain ⟨a, b, c, on, d, e, f⟩ := r.child o (by rw [← h2]; exact ho) (by rw [← h1]; exact h0)
       obtain ⟨on', d', e', f'⟩ := hget o on d
       exact ⟨a, by rw [h5]; exact b, by rw [h3]; exact c, on', d', by rw [e']; exact e, by rw [f', h4]; exact f⟩
   · have r := h.node j x hx'
-    refine ⟨r.once, fun h0 => ?_, fun hd => ?_, fun o ho h0 => ?_⟩
+    refine ⟨r.once, fun h0 => ?_, fun hd => ?_, fun o ho h0 => ?_, r.caller⟩
     · rw [hch]; exact r.live h0
     · rw [hch]; exact r.dead hd
     · obtain ⟨a, b, c, on, d, e, f⟩ := r.child o ho h0
       obtain ⟨on', d', e', f'⟩ := hget o on d
       exact ⟨a, b, c, on', d', by rw [e']; exact e, by rw [f']; exact f⟩
 
-/-- memory changes that leave the struct table alone keep `Rc` -/
-theorem Rc.of_nodes_eq {m m' : Mem} {C : List Nat} (h : Rc m C) (hn : m'.nodes = m.nodes) : Rc m' C := by
+/-- memory changes that leave the struct table alone (and the kinds of the blocks) keep `Rc` -/
+theorem Rc.of_nodes_eq {m m' : Mem} {C : List Nat} (h : Rc m C) (hn : m'.nodes = m.nodes) (he : Ext m m') : Rc m' C := by
   have hch : ∀ o, m'.ch o = m.ch o := fun o => by unfold Mem.ch; rw [hn]
   refine ⟨h.nodup, fun i hi => by rw [hn]; exact h.inb i hi, fun i nd hnd => ?_⟩
   rw [hn] at hnd
   have r := h.node i nd hnd
-  refine ⟨r.once, fun h0 => by rw [hch]; exact r.live h0, fun hd => by rw [hch]; exact r.dead hd, fun o ho h0 => ?_⟩
-  obtain ⟨a, b, c, on, d, e, f⟩ := r.child o ho h0
-  exact ⟨a, b, c, on, by rw [hn]; exact d, e, f⟩
+  refine ⟨r.once, fun h0 => by rw [hch]; exact r.live h0, fun hd => by rw [hch]; exact r.dead hd, fun o ho h0 => ?_,
+    fun hu ho k hk => ?_⟩
+  · obtain ⟨a, b, c, on, d, e, f⟩ := r.child o ho h0
+    exact ⟨a, b, c, on, by rw [hn]; exact d, e, f⟩
+  · obtain ⟨bl, g1, g2⟩ := r.caller hu ho k hk
+    obtain ⟨bl', g3, g4, _⟩ := he k bl g1
+    exact ⟨bl', g3, by rw [g4]; exact g2⟩
 
 /-- every pair to be written back keeps the reference fields of the struct now in the table -/
 def RefOK (m : Mem) (l : List (Nat × NodeS)) : Prop :=
@@ -191,7 +198,7 @@ theorem refOK_map {m : Mem} {ch : List Nat} {suf : List (Nat × NodeS)} (hr : m.
 
 /-- appending a fresh struct (no origin, one reference, not recycled) that is chained at once -/
 theorem Rc.append_fresh {m : Mem} {C : List Nat} {nd : NodeS} (h : Rc m C) (h1 : nd.recycled = 0) (h2 : nd.origin = none)
-    (h3 : nd.refer = 1) : Rc { m with nodes := m.nodes ++ [nd] } (m.nodes.length :: C) := by
+    (h3 : nd.refer = 1) (h4 : nd.unmanaged = true → nd.block = none) : Rc { m with nodes := m.nodes ++ [nd] } (m.nodes.length :: C) := by
   have hnotin : m.nodes.length ∉ C := fun hc => Nat.lt_irrefl _ (h.inb _ hc)
   have hch : ∀ o, ({ m with nodes := m.nodes ++ [nd] } : Mem).ch o = m.ch o := by
     intro o
@@ -218,12 +225,13 @@ theorem Rc.append_fresh {m : Mem} {C : List Nat} {nd : NodeS} (h : Rc m C) (h1 :
     · have r := h.node i x hx
       have hi : i ≠ m.nodes.length := Nat.ne_of_lt (lt_of_getElem? hx)
       have hin : inC (m.nodes.length :: C) i = inC C i := by simp [inC, hi]
-      refine ⟨r.once, fun h0 => by rw [hch, hin]; exact r.live h0, fun hd => ?_, fun o ho h0 => ?_⟩
+      refine ⟨r.once, fun h0 => by rw [hch, hin]; exact r.live h0, fun hd => ?_, fun o ho h0 => ?_, r.caller⟩
       · obtain ⟨a, b, c, d, e⟩ := r.dead hd
         exact ⟨a, by simp [hi, b], by rw [hch]; exact c, d, e⟩
       · obtain ⟨a, b, c, on, d, e, f⟩ := r.child o ho h0
         exact ⟨a, b, c, on, by simp only; rw [List.getElem?_append_left (lt_of_getElem? d)]; exact d, e, f⟩
-    · refine ⟨by omega, fun _ => ?_, fun hd => by omega, fun o ho => by rw [h2] at ho; cases ho⟩
+    · refine ⟨by omega, fun _ => ?_, fun hd => by omega, fun o ho => (by rw [h2] at ho; cases ho),
+        fun hu _ k hk => (by rw [h4 hu] at hk; cases hk)⟩
       rw [hch, hnew, h3]
       simp [inC]
 
